@@ -352,7 +352,8 @@ class CategoricalData:
     def _bool_per_dump(self, bool_per_value):
         """Turn list of bools per unique value into an array of bools per dump."""
         bool_per_event = np.atleast_1d(np.array(bool_per_value)[self.indices])
-        bool_per_dump = np.empty(self.events[-1], dtype=bool)
+        # Dumps before the first event (possible after `remove`) have no value and compare as False
+        bool_per_dump = np.zeros(self.events[-1], dtype=bool)
         for n, (start, end) in enumerate(zip(self.events[:-1], self.events[1:])):
             bool_per_dump[start:end] = bool_per_event[n]
         return bool_per_dump
